@@ -40,6 +40,10 @@ def bits(b):
 
 # ONE generator object lives through the whole request stream (as in the tools that use it): whatever it remembers from
 # earlier bursts must not influence later ones
+# The scripted random source is installed BEFORE the generator object is created (an object that remembers its random
+# source at construction time gets the scripted one) and stays the same object; each request only refills its draws.
+SCRIPT = Script([])
+rand_burst_gen.random = SCRIPT
 G = rand_burst_gen.RandBurstGen()
 
 
@@ -47,7 +51,8 @@ def handle(tok):
     g = G
     if tok[0] in ("rb.nb", "rb.sb", "rb.ab"):
         tsc = None if tok[1] == "-" else gsm_shared.TrainingSeqGMSK[tok[1]]
-        sc = Script([] if tok[2] == "-" else [int(x) for x in tok[2].split(",")])
+        sc = SCRIPT
+        sc.d = [] if tok[2] == "-" else [int(x) for x in tok[2].split(",")]
         rand_burst_gen.random = sc
         try:
             b = {"rb.nb": g.gen_nb, "rb.sb": g.gen_sb, "rb.ab": g.gen_ab}[tok[0]](tsc)
